@@ -146,6 +146,12 @@ StenciledF(v, g) ==
      [d \in 1..Dim(v) |-> IF d <= K THEN g[2*d - 1] ELSE v.first[d]],
      LAMBDA t : v.cell[[d \in 1..Dim(v) |-> IF d <= K THEN t[d] + (g[2*d - 1] - v.first[d]) ELSE t[d]]])
 
+(* tiled(c): the pair (quotient, remainder) = (taked(w).chunked(c), dropped(w)) with w the largest multiple of c <= size *)
+TiledWhole(v, c) == v.shape[1] - (v.shape[1] % c)
+TiledPre(v, c)   == Dim(v) >= 1 /\ c >= 1 /\ v.shape[1] >= c
+TiledQF(v, c)    == ChunkedF(TakedF(v, TiledWhole(v, c)), c)
+TiledRF(v, c)    == DroppedF(v, TiledWhole(v, c))
+
 (* front() / back(): the first / last item; &v then *p: the same view *)
 FrontPre(v) == Dim(v) >= 1 /\ v.shape[1] >= 1
 FrontF(v)   == IndexF(v, v.first[1])
@@ -208,6 +214,7 @@ ApplyPre(v, o) ==
     [] o.op = "reindexed"   -> ReindexedPre(v, o.args)
     [] o.op = "blocked"     -> BlockedPre(v, o.args[1], o.args[2])
     [] o.op = "stenciled"   -> StenciledPre(v, o.args)
+    [] o.op \in {"tiled_q", "tiled_r"} -> TiledPre(v, o.args[1])
     [] o.op = "range"       -> SlicedPre(v, o.args[1], o.args[2])
     [] o.op \in {"front", "back"} -> FrontPre(v)
     [] o.op = "addr"        -> Dim(v) >= 1
@@ -235,6 +242,8 @@ ApplyF(v, o) ==
     [] o.op = "reindexed"   -> ReindexedF(v, o.args)
     [] o.op = "blocked"     -> BlockedF(v, o.args[1], o.args[2])
     [] o.op = "stenciled"   -> StenciledF(v, o.args)
+    [] o.op = "tiled_q"     -> TiledQF(v, o.args[1])
+    [] o.op = "tiled_r"     -> TiledRF(v, o.args[1])
     [] o.op = "range"       -> SlicedF(v, o.args[1], o.args[2])
     [] o.op = "front"       -> FrontF(v)
     [] o.op = "back"        -> BackF(v)
